@@ -193,6 +193,11 @@ MUST_COMPILE = {
                                 "while True:\n    led.flash_pattern([1, 1])\n    led.flash_pattern([0])\n    rgb.fade(5, 5, 5)\n    rgb.fade(0, 0, 0)\n    bz.sweep(100, 300, 40)\n    bz.sweep(300, 100, 40)\n    m.ramp(1.0, 50)\n    m.ramp(0.0, 50)\n",
     "lcd-calls-twice-in-block": "from Reduino.Displays import LCD\nl1 = LCD(rs=12, en=11, d4=5, d5=4, d6=3, d7=2, backlight_pin=9)\nl1.progress(0, 5, 10)\nl1.progress(1, 7, 10, label=\"v\")\nl1.message(\"a\", \"b\")\nl1.message(\"c\", \"d\")\n"
                                 "l1.animate(\"scroll\", 0, \"hello\")\nl1.animate(\"blink\", 1, \"x\")\nwhile True:\n    l1.progress(0, 1, 10)\n    l1.progress(0, 2, 10)\n    l1.line(0, \"p\")\n    l1.line(0, \"q\")\n",
+    "for-hoisted-read-in-loop": "for i in range(3):\n    total = i * 2\nwhile True:\n    mon.write(total)\n    total = total + 1\n",
+    "while-hoisted-read-in-loop": "n = 0\nwhile n < 3:\n    level = n * 2\n    n += 1\nwhile True:\n    mon.write(level)\n",
+    "if-hoisted-read-in-loop": "c = 2\nif c > 1:\n    mode = 4\nelse:\n    mode = 5\nwhile True:\n    mon.write(mode)\n",
+    "for-hoisted-read-in-helper": "for i in range(3):\n    total = i * 2\ndef show():\n    return total + 1\nmon.write(show())\n",
+    "nested-for-hoisted-read-in-loop": "for i in range(2):\n    for j in range(2):\n        cell = i * 2 + j\nwhile True:\n    mon.write(cell)\n",
     "helper-calls-later-helper": "def a(n):\n    return b(n) + 1\ndef b(n):\n    return n * 2\nx = a(3)\nmon.write(x)\n",
     "helpers-mutually-recursive": "def even(n):\n    if n == 0:\n        return 1\n    return odd(n - 1)\ndef odd(n):\n    if n == 0:\n        return 0\n    return even(n - 1)\nmon.write(even(4))\n",
     "helper-variants-call-each-other": "h = 2.5\ndef mix(x, y, d):\n    if d > 0:\n        return mix(y, x, d - 1)\n    return x + y\nmon.write(mix(1, h, 3))\n",
